@@ -308,10 +308,35 @@ namespace nmtools::array
             }
         }
 
+        #ifdef NMTOOLS_VERIF
+        // verification hook: each index of a multi-index is below the extent of its axis
+        template <typename indices_t>
+        constexpr void verif_indices(const indices_t& indices_) const
+        {
+            if (!__builtin_is_constant_evaluated()) {
+                const auto& shape_ = self()->shape_;
+                using shape_t = meta::remove_cvref_t<decltype(shape_)>;
+                [[maybe_unused]] constexpr auto N = meta::len_v<shape_t>;
+                if constexpr (meta::is_index_array_v<shape_t> && meta::is_index_array_v<indices_t> && (N > 0)) {
+                    meta::template_for<N>([&](auto i){
+                        ::nmtools_verif_index((unsigned long long)at(indices_,i),(unsigned long long)at(shape_,i),4);
+                    });
+                } else if constexpr (meta::is_index_array_v<shape_t> && meta::is_index_array_v<indices_t> && !meta::is_tuple_v<indices_t>) {
+                    for (nm_size_t i=0; i<(nm_size_t)len(shape_); i++) {
+                        ::nmtools_verif_index((unsigned long long)at(indices_,i),(unsigned long long)at(shape_,i),4);
+                    }
+                }
+            }
+        }
+        #endif // NMTOOLS_VERIF
+
         template <typename...size_types>
         constexpr decltype(auto) offset(const size_types&...indices) const
         {
             auto indices_ = index::pack_indices(indices...);
+            #ifdef NMTOOLS_VERIF
+            verif_indices(indices_);
+            #endif
             auto offset   = self()->offset_(indices_);
             return offset;
         }
@@ -319,12 +344,14 @@ namespace nmtools::array
         template <typename...size_types>
         constexpr decltype(auto) operator()(const size_types&...indices)
         {
+            NMTOOLS_VERIF_INDEX(offset(indices...),size(),3);
             return nmtools::at(self()->data_,offset(indices...));
         } // operator()
 
         template <typename...size_types>
         constexpr decltype(auto) operator()(const size_types&...indices) const
         {
+            NMTOOLS_VERIF_INDEX(offset(indices...),size(),3);
             return nmtools::at(self()->data_,offset(indices...));
         } // operator()
     }; // base_ndarray_t
